@@ -238,6 +238,17 @@ def r06_6(ctx):
     ok = bool(inst) and all(len(c.args) == 2 and ast.unparse(c.args[1]) == 'soft_timeout_sighandler' for c in inst)
     ctx.ob('R06.6', 'after_fork:soft-timeout-handler-installed', ok, af, inst[0] if inst else None,
            'signal.signal(SIG_SOFT_TIMEOUT, soft_timeout_sighandler)')
+    # ... and nothing user-supplied runs after it: an initializer that binds the same signal (faulthandler.register,
+    # a debugging hook) would replace the handler and the task would never see SoftTimeLimitExceeded
+    inst_nodes = [n for (n, c) in q.calls(af, 'signal.signal') if c.args and ast.unparse(c.args[0]) == 'SIG_SOFT_TIMEOUT']
+    user = [n for (n, c) in q.calls(af, 'self.initializer')]
+    q.need(user, 'Worker.after_fork does not call the initializer')
+    after_inst = af.cfg.reach([n.id for n in inst_nodes], skip_labels=('x',)) if inst_nodes else set()
+    late = [u for u in user if u.id in after_inst]
+    ctx.ob('R06.6', 'after_fork:initializer-before-the-soft-timeout-handler', bool(inst_nodes) and not late, af,
+           late[0] if late else None,
+           'the initializer runs before the soft-timeout handler is installed' if not late else
+           'the initializer runs after the soft-timeout handler was installed and can replace it')
     MASK = ('signal.pthread_sigmask', 'signal.sigprocmask', 'signal.sigblock')
     maskers = {}
     for qn, fi in sorted(m.funcs.items()):
@@ -269,6 +280,8 @@ def r06_6(ctx):
 
 
 def run(ctx):
+    from .timelimits import scan_period
+    scan_period(ctx, 'R06.7')
     r06_6(ctx)
     r06_5(ctx)
     r04_1(ctx, site=_scanner_side, floor=5)
